@@ -114,6 +114,16 @@ pub fn run(ctx: &Ctx) {
     );
     ctx.assume("reference SM4 (harness/src/refimpl/sm4.rs): S-box generated algebraically and checked to be a bijection, CK from its formula; anchored on GB/T 32907 example 1/2 and 256 OpenSSL ECB triples");
 
+    ctx.cold("cold_start_histories", "call histories on a cipher object in a fresh process, starting with decrypt (resp. encrypt): the very first block operation of the process must already be right", || {
+        let mut v = Vec::new();
+        for i in 0..6u64 {
+            let dec_first = i % 2 == 0;
+            v.push(Hist { key: Hex(expand_bytes(i ^ 0xc02d, 16)), ops: vec![(dec_first, Hex(expand_bytes(i ^ 0x11, 16))), (!dec_first, Hex(expand_bytes(i ^ 0x22, 16))), (dec_first, Hex(expand_bytes(i ^ 0x33, 16)))] });
+        }
+        v.push(Hist { key: Hex(hex::decode(SUITE_KEY).unwrap()), ops: vec![(true, Hex(hex::decode("681edf34d206965e86b3e94f536e4246").unwrap()))] });
+        v
+    }, check_hist);
+
     ctx.exhaustive(
         "single_bit_key_x_block",
         "all 128 single-bit keys x 128 single-bit blocks",
